@@ -54,6 +54,11 @@ def add_collision(rng, c):
         m2 = list(m); m2[5] = [m[5][0]] + defs[:pos] + [extra] + defs[pos:]
         c2 = replace_at(c, p, m2)
         c2[1] += '-' + kind
+        if kind == 'vft' and rng.random() < 0.6:
+            # attempt (and resolve) the user's `<T>Vftable` BEFORE its namesake's owner: the clash must be found in this order too
+            me = c2[4][p[1]]
+            if tag(me) == 'module':
+                c2[3] = [S('prio'), path(*(list(me[1][1:]) + [extra[2]]))] + [q for q in c2[3][1:]]
         return c2 + [[S('expect'), 'reject-collision']]
     return c
 
